@@ -395,7 +395,7 @@ RecKeys(kind) ==
                           "num_outputs", "amount_credited", "amount_debited", "fee", "ttl_cutoff_height", "stored_tx", "kernel_excess",
                           "kernel_lookup_min_height", "payment_proof", "reverted_after"}
     [] kind = "context" -> {"parent_key_id", "sec_key", "sec_nonce", "initial_sec_key", "initial_sec_nonce", "output_ids", "input_ids",
-                            "amount", "fee", "payment_proof_derivation_index", "late_lock_args", "calculated_excess"}
+                            "amount", "fee", "payment_proof_derivation_index", "payment_proof_recipient_address", "late_lock_args", "calculated_excess"}
 \* a stored record survives its own encode/decode unchanged (up to whole seconds of reverted_after)
 RecRoundTrip(kind, r) == DecRec(EncRec(kind, r)) = NormRec(kind, r)
 =============================================================================
